@@ -68,7 +68,4 @@ MUTANTS = [
     dict(prop='C04', name='role-from-latest-get-registry', edits=[(PARSE,
         "            is_server = None\n            if msg.name ==  'get_registry':\n                is_server = not msg.sent",
         "            is_server = getattr(self, '_role', None)\n            if msg.name ==  'get_registry':\n                is_server = not msg.sent\n                self._role = is_server")]),
-    dict(prop='C04', name='base-time-free-but-display-shared', edits=[(MGR,
-        "        connection = self.open_connections.get(connection_id)\n        assert connection, 'Message sent",
-        "        connection = self.open_connections.get(connection_id) or (self.connection_list[-1] if self.connection_list else None)\n        assert connection, 'Message sent")]),
 ]
